@@ -327,8 +327,11 @@ def check_partial(src, indent, case):
     if not sigpos or l.root.end_pos > sigpos[-1]:
         return 'fully_parsed'
     left = sum(1 for p in sigpos if p >= l.root.end_pos)
-    for writer, args in (('fmt', {'indentwidth': indent}), ('astecho', None), ('astmin', None)):
+    for writer, args in (('fmt', {'indentwidth': indent}), ('astecho', None), ('astmin', None),
+                         ('astecho', {'ignore_tokens': True})):
         what = {'fmt': 'luafmt (LuaFormatterWriter)', 'astecho': 'LuaASTEchoWriter', 'astmin': 'LuaMinifyWriter'}[writer]
+        if args and args.get('ignore_tokens'):
+            what += ' in ignore_tokens mode (the mode Lua.reparse() documents for rewriting a transformed tree)'
         try:
             _l, out = fmt_lib([src], writer, args)
         except Exception:
